@@ -30,12 +30,19 @@ def gen_case(rng):
     floating = 'Li' if 'Li' in species else [x for x in ('Si', 'Na', 'Cl') if x in species][0]
     fixed = sorted(set(species) - {floating})
     return {'lattice_name': name, 'lattice': lat.tolist(), 'species': species, 'coords': c.tolist(), 'inject': inj.tolist(),
-            'floating': floating, 'fixed': fixed, 'kind': str(rng.choice(['Element', 'Species']))}
+            'floating': floating, 'fixed': fixed, 'kind': str(rng.choice(['Element', 'Species', 'Species+oxidation']))}
+
+
+OXIDATION = {'Li': 1, 'Na': 1, 'O': -2, 'S': -2, 'Si': 4, 'N': -3, 'C': 4, 'Cl': -1}
 
 
 def build(case, coords):
-    cls = Element if case['kind'] == 'Element' else Species
-    return gem.make_traj(coords, case['lattice'], [cls(s) for s in case['species']], metadata={'temperature': 300.0, 'tag': 'x'})
+    if case['kind'] == 'Species+oxidation':
+        sp = [Species(s, OXIDATION[s]) for s in case['species']]  # decorated species: str(sp) is e.g. 'Li+', sp.symbol stays 'Li'
+    else:
+        cls = Element if case['kind'] == 'Element' else Species
+        sp = [cls(s) for s in case['species']]
+    return gem.make_traj(coords, case['lattice'], sp, metadata={'temperature': 300.0, 'tag': 'x'})
 
 
 def check_case(out: Outcome, case, tag):
@@ -60,6 +67,9 @@ def check_case(out: Outcome, case, tag):
         'fixed-str': dict(fixed_species=fixed[0]) if len(fixed) == 1 else dict(fixed_species=tuple(fixed)),
         'floating-str': dict(floating_species=floating),
         'floating-list': dict(floating_species=[floating]),
+        # every reference atom's symbol, one entry per atom (names repeated as often as the species has atoms)
+        'fixed-per-atom-list': dict(fixed_species=[x for x in species if x in fixed]),
+        'fixed-set': dict(fixed_species=set(fixed)),
     }
     results = {}
     with warnings.catch_warnings():
@@ -102,7 +112,7 @@ def check_case(out: Outcome, case, tag):
     if not eq(pos_inj, pos):
         out.fail('property', 'rigid-drift-invariance', case, expected=pos.tolist(), observed=pos_inj.tolist())
     # (e) naming the floating species == naming all others as fixed; str == collection
-    for nm in ('fixed-str', 'floating-str', 'floating-list'):
+    for nm in ('fixed-str', 'floating-str', 'floating-list', 'fixed-per-atom-list', 'fixed-set'):
         r = results.get(nm)
         if r is None:
             continue
